@@ -46,6 +46,7 @@ type c06job struct {
 	// oracle
 	g       *retroGraph // nil: bounded exhaustive search
 	gi      int
+	hunt    bool
 	modelOK bool        // eligible for the model comparison (cost permitting)
 
 	// results
@@ -119,6 +120,11 @@ func (j *c06job) run() {
 			j.stats["dfpn_work_total"] += int64(st.Work)
 			if st.Repetition > 0 {
 				j.stats["dfpn_runs_with_repetition"]++
+				j.stats[fmt.Sprintf("dfpn_runs_with_repetition_graph%d", j.gi)]++
+				j.stats["dfpn_repetition_events"] += int64(st.Repetition)
+				if os.Getenv("C06_SHOWREP") != "" {
+					fmt.Fprintf(os.Stderr, "REP %d work %d %s %s entries %d att %s\n", st.Repetition, st.Work, ptn.FormatTPS(j.root), verdictStr(r.Result), j.entries, attStr(j.attacker))
+				}
 			}
 		}
 	})
@@ -243,6 +249,7 @@ func (j *c06job) judge(in string, res prove.ProofResult, attacker tak.Color, l1 
 type c06graphSpec struct {
 	cfg                     tak.Config
 	playout, sampled, model int
+	hunt                    int // extra oracle-only DFPN runs on shuffle-prone roots (a wall and a stack on the board)
 }
 
 func c06roots(r *rand.Rand, cfg tak.Config, n int, maxPlies int) []*tak.Position {
@@ -330,18 +337,18 @@ func runC06(c *ctx) {
 	// roots: playout = positions from random legal games, sampled = drawn from the solved graph itself;
 	// model = how many of the roots (first the playout ones) are also given to the extracted model
 	specs := []c06graphSpec{
-		{tak.Config{Size: 3, Pieces: 3}, 500, 700, 200},
-		{tak.Config{Size: 3, Pieces: 3, BlackWinsTies: true}, 200, 300, 60},
-		{tak.Config{Size: 3, Pieces: 2, Capstones: 1}, 500, 700, 200},
-		{tak.Config{Size: 3, Pieces: 2}, 60, 60, 40},
-		{tak.Config{Size: 4, Pieces: 2}, 200, 300, 100},
-		{tak.Config{Size: 4, Pieces: 1, Capstones: 1}, 100, 100, 40},
+		{tak.Config{Size: 3, Pieces: 3}, 500, 700, 200, 12000},
+		{tak.Config{Size: 3, Pieces: 3, BlackWinsTies: true}, 200, 300, 60, 6000},
+		{tak.Config{Size: 3, Pieces: 2, Capstones: 1}, 500, 700, 200, 12000},
+		{tak.Config{Size: 3, Pieces: 2}, 60, 60, 40, 0},
+		{tak.Config{Size: 4, Pieces: 2}, 200, 300, 100, 1000},
+		{tak.Config{Size: 4, Pieces: 1, Capstones: 1}, 100, 100, 40, 0},
 	}
 	if !c.quick() {
 		specs = append(specs,
-			c06graphSpec{tak.Config{Size: 4, Pieces: 3}, 300, 500, 20},
-			c06graphSpec{tak.Config{Size: 4, Pieces: 2, Capstones: 1}, 300, 500, 20},
-			c06graphSpec{tak.Config{Size: 3, Pieces: 4}, 300, 500, 20},
+			c06graphSpec{tak.Config{Size: 4, Pieces: 3}, 300, 500, 20, 3000},
+			c06graphSpec{tak.Config{Size: 4, Pieces: 2, Capstones: 1}, 300, 500, 20, 3000},
+			c06graphSpec{tak.Config{Size: 3, Pieces: 4}, 300, 500, 20, 6000},
 		)
 	}
 	graphs := make([]*retroGraph, len(specs))
@@ -386,6 +393,26 @@ func runC06(c *ctx) {
 				j.modelOK = j.modelOK && model
 				jobs = append(jobs, j)
 			}
+		}
+		// the hunt for a wrong verdict caused by repetition (graph-history interaction)
+		var prone []*tak.Position
+		for _, p := range g.sample {
+			if p.Standing == 0 {
+				continue
+			}
+			for _, h := range p.Height {
+				if h >= 2 {
+					prone = append(prone, p)
+					break
+				}
+			}
+		}
+		for k := 0; k < s.hunt*c.scale && len(prone) > 0; k++ {
+			j := c.c06dfpnJob(prone[c.r.Intn(len(prone))], g)
+			j.modelOK = false
+			j.hunt = true
+			jobs = append(jobs, j)
+			c.stat("hunt_runs", 1)
 		}
 	}
 
@@ -637,11 +664,34 @@ func c06single(c *ctx, j *c06job) {
 }
 
 func c06probe(c *ctx) {
+	if c.args[0] == "hard" {
+		sz, _ := strconv.Atoi(c.args[1])
+		pc, _ := strconv.Atoi(c.args[2])
+		cp, _ := strconv.Atoi(c.args[3])
+		cfg := tak.Config{Size: sz, Pieces: pc, Capstones: cp}
+		for k := 0; k < 10; k++ {
+			ps, _ := randomGame(c.r, cfg, k/2, -1, false)
+			p := ps[len(ps)-1]
+			for _, a := range []tak.Color{tak.White, tak.Black} {
+				for _, e := range []int{4, 1024, 1 << 16} {
+					t0 := time.Now()
+					d := prove.NewDFPN(&prove.DFPNConfig{Attacker: a, TableMem: int64(e) * c06EntrySize})
+					r, st := d.Prove(p)
+					fmt.Fprintf(os.Stderr, "ply %d att %s entries %d: %s work %d rep %d hits %d miss %d  %v\n", p.MoveNumber(), attStr(a), e, verdictStr(r.Result), st.Work, st.Repetition, st.Hits, st.Miss, time.Since(t0))
+				}
+			}
+		}
+		return
+	}
 	if c.args[0] == "late" {
 		size, _ := strconv.Atoi(c.args[1])
 		left, _ := strconv.Atoi(c.args[2])
+		pcs := 0
+		if len(c.args) > 3 {
+			pcs, _ = strconv.Atoi(c.args[3])
+		}
 		for k := 0; k < 12; k++ {
-			ps, _ := randomGame(c.r, tak.Config{Size: size}, 200, c.r.Intn(6), false)
+			ps, _ := randomGame(c.r, tak.Config{Size: size, Pieces: pcs}, 200, c.r.Intn(6), false)
 			var p *tak.Position
 			for _, q := range ps {
 				ws, wc, bs, bc := tak.VerifReserves(q)
@@ -660,6 +710,14 @@ func c06probe(c *ctx) {
 				continue
 			}
 			fmt.Fprintf(os.Stderr, "ply %d: nodes %d edges %d root W %d B %d %v\n", p.MoveNumber(), len(g.term), g.edges, g.dist[0][0], g.dist[1][0], time.Since(t0))
+			for _, a := range []tak.Color{tak.White, tak.Black} {
+				for _, e := range []int{4, 1 << 16} {
+					t0 := time.Now()
+					d := prove.NewDFPN(&prove.DFPNConfig{Attacker: a, TableMem: int64(e) * c06EntrySize})
+					r, st := d.Prove(p)
+					fmt.Fprintf(os.Stderr, "    att %s entries %d: %s work %d rep %d hits %d miss %d  %v\n", attStr(a), e, verdictStr(r.Result), st.Work, st.Repetition, st.Hits, st.Miss, time.Since(t0))
+				}
+			}
 		}
 		return
 	}
